@@ -52,7 +52,7 @@ Definition check_merge_case (c : merge_case) : list (string * bool) :=
     ("prop.c07.no_plumbing", match obs_merged c with
         | Some o => negb (existsb (fun t => String.eqb (td_name t) "Service" || String.eqb (td_name t) "Node") o) &&
                     forallb (fun t => forallb (fun f => negb (fd_boundary f) &&
-                                                        negb (String.eqb (td_name t) "Query" && (String.eqb (fd_name f) "service" || String.eqb (fd_name f) "node")))
+                                                        negb (String.eqb (td_name t) "Query" && (is_service_field f || is_node_field f)))
                                               (td_fields t)) o
         | None => true end);
     ("prop.c07.single_owner_routed", match obs_merged c with
